@@ -95,12 +95,18 @@ def scenario(kind, res, lean_lines, meta):
             target = see if see is not None else (names[0] if names else None)
             deadline = time.monotonic() + 10
             while target is not None and time.monotonic() < deadline:
-                hit = False
-                for e in list(recs["native"].events):
-                    for pth in (e.src_path, e.dest_path):
-                        if pth not in ("", b"", None) and os.fsencode(pth).endswith(b"/" + target):
-                            hit = True
-                if hit:
+                # BOTH observers: a polling observer that lags behind (loaded machine) compresses two operations into one
+                # diff - a file made in `d` and `d` renamed to `dd` before its next snapshot is a creation of `dd/<file>` to
+                # it, legitimately, and the two backends' created paths would differ
+                hits = 0
+                for backend in ("native", "polling"):
+                    hit = False
+                    for e in list(recs[backend].events):
+                        for pth in (e.src_path, e.dest_path):
+                            if pth not in ("", b"", None) and os.fsencode(pth).endswith(b"/" + target):
+                                hit = True
+                    hits += hit
+                if hits == 2:
                     break
                 time.sleep(0.01)
             time.sleep(0.16)
